@@ -614,7 +614,27 @@ func isRecursiveCopy(v ssa.Value, copyFn *ssa.Function, seen map[ssa.Value]bool)
 	seen[v] = true
 	switch x := v.(type) {
 	case *ssa.Call:
-		return x.Common().StaticCallee() == copyFn
+		sc := x.Common().StaticCallee()
+		if sc == copyFn {
+			return true
+		}
+		// a helper of the same package that builds the copies (copyBranches): every value it
+		// returns must itself be made of copies
+		if sc == nil || sc.Pkg == nil || sc.Pkg != copyFn.Pkg || len(sc.Blocks) == 0 {
+			return false
+		}
+		n := 0
+		for _, b := range sc.Blocks {
+			for _, in := range b.Instrs {
+				if ret, ok := in.(*ssa.Return); ok {
+					n++
+					if len(ret.Results) != 1 || !isRecursiveCopy(ret.Results[0], copyFn, seen) {
+						return false
+					}
+				}
+			}
+		}
+		return n > 0
 	case *ssa.TypeAssert:
 		return isRecursiveCopy(x.X, copyFn, seen)
 	case *ssa.ChangeInterface:
